@@ -86,7 +86,24 @@ def r_c03_journal_before_inclusive(s4, repo, scratch):
             'observed': 'total=%d  -b X=%d  -a X=%d  -a X -b X=%d' % (total, nb, na, nab), 'failed': not ok}
 
 
+def r_c13_field_order_fixedstruct(s4, repo, scratch):
+    """file-name field before datetime field, for every colour setting (accounting records)"""
+    f = os.path.join(repo, 'logs/programs/utmp/host-entry6.wtmp')
+    rc1, out_never, _ = run_s4(s4, ['--color', 'never', '-n', '-u', f])
+    rc2, out_always, _ = run_s4(s4, ['--color', 'always', '-n', '-u', f])
+    plain = ANSI.sub(b'', out_always)
+    l1 = [l.strip() for l in out_never.split(b'\n') if b'ut_type' in l]
+    l2 = [l.strip() for l in plain.split(b'\n') if b'ut_type' in l]
+    starts_with_file = all(l.startswith(b'host-entry6.wtmp') for l in l1)
+    return {'name': 'C13.field_order_fixedstruct', 'input': f, 'how_made': 'file from the repository',
+            'cmd': '%s --color never -n -u %s' % (s4, f),
+            'expected': 'every line starts with the file-name field; identical to --color always with escapes removed',
+            'observed': 'never: %r | always(stripped): %r' % (l1[0][:60] if l1 else b'', l2[0][:60] if l2 else b''),
+            'failed': not (l1 and starts_with_file and l1 == l2)}
+
+
 RECIPES = {
+    'C13': [r_c13_field_order_fixedstruct],
     'C03': [r_c03_journal_before_inclusive],
     'C08': [r_c08_equal_times, r_c08_order],
 }
